@@ -16,14 +16,16 @@ import (
 	"time"
 	"unicode/utf8"
 
+	"verifharness/internal/model"
 	"verifharness/internal/srv"
 )
 
 // ---------- strict RESP reader over a byte stream ----------
 
 type rconn struct {
-	c net.Conn
-	r *bufio.Reader
+	c   net.Conn
+	r   *bufio.Reader
+	cap bytes.Buffer // every byte received since the last request (requests are answered one at a time)
 }
 
 func dialRaw(port int) (*rconn, error) {
@@ -31,7 +33,9 @@ func dialRaw(port int) (*rconn, error) {
 	if err != nil {
 		return nil, err
 	}
-	return &rconn{c: c, r: bufio.NewReaderSize(c, 1<<16)}, nil
+	rc := &rconn{c: c}
+	rc.r = bufio.NewReaderSize(io.TeeReader(c, &rc.cap), 1<<16)
+	return rc, nil
 }
 
 func (c *rconn) close() { c.c.Close() }
@@ -171,6 +175,7 @@ func (c *rconn) readValue() (srv.Value, error) {
 
 // do sends one RESP-framed command and reads one value.
 func (c *rconn) do(args ...string) (srv.Value, error) {
+	c.cap.Reset()
 	if err := c.write(srv.Encode(args...)); err != nil {
 		return srv.Value{}, err
 	}
@@ -386,4 +391,27 @@ func hasNonFiniteToken(raw string) bool {
 		}
 	}
 	return false
+}
+
+// canonRESP renders a parsed reply in the format of the model driver's resp_image.
+func canonRESP(v srv.Value) string {
+	switch v.Kind {
+	case '+':
+		return "S:" + model.H(v.Str)
+	case '-':
+		return "E:" + model.H(v.Str)
+	case ':':
+		return "I:" + strconv.FormatInt(v.Int, 10)
+	case '$':
+		return "B:" + model.H(v.Str)
+	case 'n':
+		return "N"
+	case '*':
+		parts := make([]string, len(v.Array))
+		for i, e := range v.Array {
+			parts[i] = canonRESP(e)
+		}
+		return "A[" + strings.Join(parts, ",") + "]"
+	}
+	return "?"
 }
